@@ -98,8 +98,9 @@ load_known_private()
 class Symx:
     def __init__(self, facts, inline=(), pure=(), models=None, spec=None, max_paths=20000, max_depth=5,
                  inline_all_local=False, no_inline=(), loop_symbolic=False, snapshot_refs=False,
-                 follow_private=None):
+                 follow_private=None, unroll=1):
         self.loop_symbolic = loop_symbolic
+        self.unroll = unroll        # how many times a block of the entry function may be entered on one path
         self._loops = {}
         self.fx = facts
         self.inline = set(inline)
@@ -478,8 +479,9 @@ class Symx:
         while work:
             st, bi, visited = work.pop()
             while True:
-                if bi in visited:
-                    # back edge: the path is reported up to here (loop bodies are walked once)
+                if visited.count(bi) >= (self.unroll if depth == 0 else 1):
+                    # back edge: the path is reported up to here (loop bodies are walked once, or
+                    # `unroll` times in the entry function when asked)
                     st.cut = True
                     self.npaths += 1
                     if self.npaths > self.max_paths:
